@@ -510,8 +510,8 @@ def ArrFits (nbf : Nat) (b : ArrBase) (s s' : Shape) : Prop :=
 
 /-- Accepted `WavefunctionProperties`: the basis carries `nbf` = the count implied by its shells; every AO
 matrix (`h_core`, `h_effective`, `scf_density`, `scf_fock`, `scf_coulomb`, `scf_exchange`, both spins) is
-`[nbf, nbf]`, `scf_orbitals` is `[nbf, size/nbf]`, eigenvalues and occupations are flat, `localized_*` are
-left as supplied; every array keeps its element count; a field is present iff it was supplied; pointers and
+`[nbf, nbf]`, `scf_orbitals` and `localized_orbitals` are `[nbf, size/nbf]`, eigenvalues and occupations are flat,
+`localized_fock` is left as supplied; every array keeps its element count; a field is present iff it was supplied; pointers and
 `restricted` are unchanged and every pointer names a present array. -/
 theorem wfn_shapes (x y : Wfn BasisIn) (h : validateWfn x = .ok y) :
     ∃ b b' nbf, x.basis = some b ∧ y.basis = some b' ∧ b'.nbf = some nbf ∧ nbf = calcNbf b.centers b.atomMap ∧
